@@ -205,20 +205,24 @@ static void do_buf(char **ops, int nops)
 
 /* "<len> <items,> <W|B>": items by walking head->next (bounded), W = well formed
  * (walk length == len, tail is the last cell, tail->next == NULL, get(i) agrees with the walk) */
-static void lstate(WBXMLList *l)
+static void lstate2(WBXMLList *l, int with_get)
 {
     WBXMLListElt *e; WB_ULONG k = 0; int ok = 1; WBXMLListElt *last = NULL;
     printf("%u ", l->len);
     if (!l->head) putchar('-');
     for (e = l->head; e && k < 100000; e = e->next, k++) {
         printf(k ? ",%lu" : "%lu", (unsigned long)(uintptr_t)e->item);
-        if (wbxml_list_get(l, k) != e->item) ok = 0;
+        /* the observation between two operations of the history only reads the links: calling the list API
+         * here would itself be an operation (and would hide state kept between calls, e.g. a look-up cursor) */
+        if (with_get && wbxml_list_get(l, k) != e->item) ok = 0;
         last = e;
     }
-    if (k != l->len || last != l->tail || (last && last->next) || wbxml_list_get(l, k) != NULL) ok = 0;
-    if (wbxml_list_len(l) != l->len) ok = 0;
+    if (k != l->len || last != l->tail || (last && last->next)) ok = 0;
+    if (with_get && (wbxml_list_get(l, k) != NULL || wbxml_list_len(l) != l->len)) ok = 0;
     printf(" %c", ok ? 'W' : 'B');
 }
+
+static void lstate(WBXMLList *l) { lstate2(l, 0); }
 
 static void do_list(char **ops, int nops)
 {
@@ -236,10 +240,40 @@ static void do_list(char **ops, int nops)
         else if (!strcmp(o, "get") && nf == 2) printf("%lu", (unsigned long)(uintptr_t)wbxml_list_get(l, (WB_ULONG)strtoul(f[1], NULL, 10)));
         else if (!strcmp(o, "xf")) printf("%lu", (unsigned long)(uintptr_t)wbxml_list_extract_first(l));
         else printf("BADOP");
-        printf(" "); lstate(l);
+        printf(" "); if (i == nops - 1) lstate2(l, 1); else lstate(l);
     }
     puts("");
     wbxml_list_destroy(l, NULL);
+}
+
+/* BIG op,op,...  (implementation-side stream for sizes beyond what a history line can carry)
+ *   aN       append N bytes          iN:P   insert N bytes at position P        dN:P   delete N bytes at P
+ * byte j of the k-th inserted block is (k * 31 + j * 7 + 1) & 0xff.  After each operation: "<len>:<fnv1a of the
+ * contents>:<Z|z>" (Z = one NUL after the contents).  Under ASan an overrun of the block aborts the run. */
+static void do_big(char *spec)
+{
+    WBXMLBuffer *b = wbxml_buffer_create((const WB_UTINY *)"", 0, 0);
+    char *op; unsigned k = 0;
+    if (!b) { puts("NOMEM"); return; }
+    for (op = strtok(spec, ","); op; op = strtok(NULL, ","), k++) {
+        unsigned long n = strtoul(op + 1, NULL, 10), pos = 0, j;
+        char *c = strchr(op, ':');
+        unsigned long h = 2166136261UL; WB_ULONG i; int ok = 1;
+        if (c) pos = strtoul(c + 1, NULL, 10);
+        if (op[0] == 'a' || op[0] == 'i') {
+            unsigned char *blk = malloc(n ? n : 1);
+            for (j = 0; j < n; j++) blk[j] = (unsigned char)((k * 31 + j * 7 + 1) & 0xff);
+            if (op[0] == 'a') ok = wbxml_buffer_append_data(b, blk, (WB_ULONG)n);
+            else { WBXMLBuffer *t = wbxml_buffer_create(blk, (WB_ULONG)n, 0); ok = t && wbxml_buffer_insert(b, t, (WB_ULONG)pos); if (t) wbxml_buffer_destroy(t); }
+            free(blk);
+        } else if (op[0] == 'd') {
+            wbxml_buffer_delete(b, (WB_ULONG)pos, (WB_ULONG)n);
+        }
+        for (i = 0; i < wbxml_buffer_len(b); i++) { h ^= wbxml_buffer_get_cstr(b)[i]; h = (h * 16777619UL) & 0xffffffffUL; }
+        printf("%s%u:%lu:%c%s", k ? " " : "", wbxml_buffer_len(b), h, wbxml_buffer_get_cstr(b)[wbxml_buffer_len(b)] == 0 ? 'Z' : 'z', ok ? "" : "!");
+    }
+    puts("");
+    wbxml_buffer_destroy(b);
 }
 
 int main(void)
@@ -251,6 +285,7 @@ int main(void)
         if (nt == 0) { puts(""); }
         else if (!strcmp(tok[0], "BUF") && nt >= 2) do_buf(tok + 1, nt - 1);
         else if (!strcmp(tok[0], "LIST")) do_list(tok + 1, nt - 1);
+        else if (!strcmp(tok[0], "BIG") && nt == 2) do_big(tok[1]);
         else puts("BADVERB");
         fflush(stdout);
     }
